@@ -87,6 +87,11 @@ type rpRemote struct {
 
 var rawPeerScenarios = []string{"value-for-error-only", "dup-responses", "bad-response-value", "bad-closure-id", "bad-closure-id-spawned", "error-response-write-fails", "pipelined-big-args"}
 
+func compactMsg(m rpc.Message[json.RawMessage]) string {
+	b, _ := json.Marshal(m)
+	return string(b)
+}
+
 func subRawPeer(args []string) {
 	sc := args[0]
 	if sc == "nil-hooks-precancelled" {
@@ -159,6 +164,101 @@ func subRawPeer(args []string) {
 		time.Sleep(30 * time.Millisecond)
 		cancel()
 		time.Sleep(150 * time.Millisecond)
+		pw.Close()
+		fmt.Println("DONE")
+		return
+	}
+	if sc == "stream-omitted-members" {
+		// STREAM API, a foreign peer whose serializer writes only the member that is present ({"request":{…}} /
+		// {"response":{…}}, no explicit null for the other one) and whose traffic alternates: it calls us, we call it,
+		// it answers, it calls us again. Every request of the peer is answered exactly once — with the result of
+		// running ITS function on ITS arguments — and nothing else is written.
+		reg := rpc.NewRegistry[rpRemote, json.RawMessage](rpLocal{}, nil)
+		ctx, cancel := context.WithCancel(context.Background())
+		defer cancel()
+		pr, pw := io.Pipe()
+		dec := json.NewDecoder(pr)
+		written := make(chan rpc.Message[json.RawMessage], 64)
+		done := make(chan error, 1)
+		go func() {
+			done <- reg.LinkStream(ctx,
+				func(m rpc.Message[json.RawMessage]) error { written <- m; return nil },
+				func(m *rpc.Message[json.RawMessage]) error { return dec.Decode(m) },
+				func(v any) (json.RawMessage, error) { b, err := json.Marshal(v); return b, err },
+				func(data json.RawMessage, v any) error { return json.Unmarshal([]byte(data), v) }, nil)
+		}()
+		var rem rpRemote
+		up := false
+		for i := 0; i < 3000 && !up; i++ {
+			reg.ForRemotes(func(id string, r rpRemote) error { rem, up = r, true; return nil })
+			if !up {
+				time.Sleep(time.Millisecond)
+			}
+		}
+		next := func(what string) (rpc.Message[json.RawMessage], bool) {
+			select {
+			case m := <-written:
+				return m, true
+			case <-time.After(watchdog):
+				fmt.Println("BAD nothing was written: " + what)
+				return rpc.Message[json.RawMessage]{}, false
+			}
+		}
+		for round := 0; round < 3; round++ {
+			// the peer calls Say
+			arg := fmt.Sprintf("r%d", round)
+			go pw.Write([]byte(fmt.Sprintf(`{"request":{"call":"s%d","function":"Say","args":[%q]}}`, round, arg) + "\n"))
+			m, ok := next("the answer to the peer's request (sent without a response member)")
+			if !ok {
+				break
+			}
+			var resp struct {
+				Call  string          `json:"call"`
+				Value json.RawMessage `json:"value"`
+			}
+			if m.Response != nil {
+				json.Unmarshal(*m.Response, &resp)
+			}
+			if m.Response == nil || resp.Call != fmt.Sprintf("s%d", round) || string(resp.Value) != fmt.Sprintf("%q", "said:"+arg) {
+				fmt.Printf("BAD the peer's request s%d (envelope without a response member) was answered with %s\n", round, compactMsg(m))
+			}
+			// we call the peer; it answers with an envelope that has NO request member
+			res := make(chan string, 1)
+			go func() { v, err := rem.Ping(context.Background()); res <- fmt.Sprintf("%v/%v", v, err) }()
+			m, ok = next("our own request")
+			if !ok {
+				break
+			}
+			if m.Request == nil {
+				fmt.Printf("BAD expected our request to be written, got %s\n", compactMsg(m))
+				break
+			}
+			var req struct {
+				Call string `json:"call"`
+			}
+			json.Unmarshal(*m.Request, &req)
+			go pw.Write([]byte(fmt.Sprintf(`{"response":{"call":%q,"value":"pong%d","err":""}}`, req.Call, round) + "\n"))
+			select {
+			case got := <-res:
+				if got != fmt.Sprintf("pong%d/<nil>", round) {
+					fmt.Printf("BAD our call, answered by an envelope without a request member, returned %s\n", got)
+				}
+			case <-time.After(watchdog):
+				fmt.Println("BAD our call, answered by an envelope without a request member, did not return")
+			}
+			// nothing else may be written: no request of the peer is outstanding
+			select {
+			case m := <-written:
+				fmt.Printf("BAD an envelope was written although no request of the peer was outstanding (the response envelope carried no request member): %s\n", compactMsg(m))
+			case <-time.After(40 * time.Millisecond):
+			}
+		}
+		select {
+		case err := <-done:
+			fmt.Printf("BAD the link ended on well-formed envelopes that omit the absent member: %v\n", err)
+		default:
+		}
+		cancel()
 		pw.Close()
 		fmt.Println("DONE")
 		return
@@ -626,10 +726,10 @@ func runRawPeer(rep *Report, prop string) {
 		"C15": {"dup-responses", "nil-hooks-precancelled", "dup-responses-then-teardown"},
 		"C14": {"nil-hooks-precancelled", "dup-responses-then-teardown"},
 		"C09": {"bad-response-value", "value-for-error-only", "pipelined-big-args"},
-		"C08": {"pipelined-big-args"},
+		"C08": {"pipelined-big-args", "stream-omitted-members"},
 		"C06": {"nil-hooks-precancelled", "bad-response-value", "bad-closure-id", "bad-closure-id-spawned", "pipelined-big-args", "many-links-new-names", "missing-args-after-valid", "stream-both-members-after-end"},
 		"C16": {"bad-closure-id", "error-response-write-fails", "bad-response-while-closure-runs", "bad-call-id-error-response"},
-		"C17": {"bad-closure-id", "value-for-error-only"},
+		"C17": {"bad-closure-id", "value-for-error-only", "stream-omitted-members"},
 		"C03": {"error-response-write-fails", "bad-response-while-closure-runs", "bad-call-id-error-response", "dup-responses-then-read-failure", "dup-responses-then-read-failure", "dup-responses-then-read-failure"}, // (a race: three attempts)
 		"C13": {"two-links-dup-answers"},
 		"C12": {"dup-responses"},
